@@ -106,6 +106,10 @@ def settings_for(rng, kind, d, ns):
     else:  # shared_speed_logistic
         P["log_g_mean"] = [f32(rng.uniform(-1.5, 3.0))]
         P["deltas_mean"] = [f32(rng.uniform(-1.5, 1.5)) for _ in range(d - 1)]
+        if d > 1 and rng.random() < 0.35:
+            # an early marker already saturated, or a late one still normal, at the reference time (outcome within 1% of 0 or 1)
+            k = rng.randrange(d - 1)
+            P["deltas_mean"][k] = f32(rng.choice([-1, 1]) * rng.uniform(3.2, 6.0))
         P["xi_mean"] = [f32(rng.uniform(-4, -1))]
     if ns > 0:
         P["betas_mean"] = [[f32(rng.uniform(-0.3, 0.3)) for _ in range(ns)] for _ in range(d - 1)]
